@@ -23,6 +23,7 @@ CLAUSE = CLAUSE + (" station_lookup selects a table row by comparing the whole c
 CLAUSE = CLAUSE + (" parse_8_30 decodes local time only under designation 0..1 and the programme id only under 2..3.")
 CLAUSE = CLAUSE + (" parse_8_30 is dispatched on the full channel number (pmag & 15) == 0.")
 CLAUSE = CLAUSE + (' The channel-switch countdown is armed only when a previous frame exists (vbi->time > 0).')
+CLAUSE = CLAUSE + (" vbi_chsw_reset() wipes the network record on every path with identified == 0.")
 NOT_DECIDED = ("that the event carries exactly the transmitted values (value fidelity), exactly-one event under interleaved "
                "carriers, the XDS carrier's missing `id != nuid` test (XDS is checksum protected and not among the four "
                "carriers the statement quantifies over; recorded as a note).")
@@ -265,6 +266,7 @@ def run(ctx, run):
                           "is announced before it has been repeated three times", ex.loc(f, i),
                           witness={"function": f.name, "store": ex.pretty(f, i)})
 
+    _wipe_whenever_unidentified(ctx, run)
     # ---- countdown-driven reset ------------------------------------------------------
     f = P.need("vbi_decode", "src/vbi.c")
     F_CD = "vbi_decoder.chswcd"
@@ -525,6 +527,47 @@ def _activation_only(ctx, run):
                           "announced again, and the next station change no longer drops the cache" % ex.pretty(f, i)[:60],
                           ex.loc(f, i), witness={"dominating": [repr(a) for a in ats]})
     run.floor("reset actions in vbi_event_enable", n, 5)
+
+
+def _wipe_whenever_unidentified(ctx, run):
+    """vbi_chsw_reset (vbi, 0) - a channel switch nobody identified - forgets everything received from the old
+    station: the network record with the last received CNIs and the repeat-cycle counter.  If the wipe is skipped on some
+    path with identified == 0 (say, because no station had been announced yet), one reception before the switch and one
+    after it count as 'received again unchanged' and a station is announced on a single reception.  Rule (edge cut):
+    every path through the function avoids the wipe only over an edge that says identified != 0."""
+    P = ctx.prog
+    f = P.need("vbi_chsw_reset", "src/vbi.c")
+    run.touch(f)
+    pn = f.params[1]["name"]
+    wipes = set()
+    for bid, i in flow.all_events(f):
+        e = f.exprs[i]
+        if e["k"] == "call" and e.get("callee") in ("memset", "__builtin_memset") and e.get("c") and \
+                ex.pretty(f, e["c"][0]).replace(" ", "").endswith("->network"):
+            wipes.add(bid)
+    run.floor("wipes of the network record in vbi_chsw_reset", len(wipes), 1)
+    seen, stack, leak = set(), [f.entry], None
+    while stack:
+        b = stack.pop()
+        if b in seen or b in wipes:
+            continue
+        seen.add(b)
+        if b == f.exit:
+            leak = b
+            break
+        for s2, lab in f.edges(b):
+            if lab in ("T", "F") and any(a.rel == "!=" and a.R is not None and a.R.const == 0 and a.L.locals == {pn} and not a.L.fields
+                                         for a in atoms.edge_atoms(f, b, lab)):
+                continue
+            stack.append(s2)
+    key = "RF-CORR:vbi_chsw_reset:wipe-whenever-unidentified"
+    loc = "%s:%d" % (f.file, f.line)
+    if leak is None:
+        run.holds("RF-CORR", key, "every path with %s == 0 wipes the network record (last received CNIs, repeat cycle)" % pn, loc)
+    else:
+        run.violation("RF-CORR", key, "a path through vbi_chsw_reset() with %s == 0 does not wipe the network record: the CNIs received "
+                      "before the channel switch and the repeat-cycle counter survive it, so a single reception after the switch is "
+                      "taken for the confirming repeat and the station is announced at once" % pn, loc, witness={"function": f.name})
 
 
 def _field_store(f, i, field):
